@@ -279,3 +279,15 @@ mod tests {
         assert_eq!(result.len(), 1);
     }
 }
+
+/// Read-only view of the stored copies for external verification tooling.
+/// Compiled only with `--cfg itree_verif`.
+#[cfg(itree_verif)]
+impl<R, E, V: Copy> SegExpTree<R, E, V> {
+    pub fn verif_chunks(&self) -> Vec<Vec<(V, u64)>> {
+        self.chunks
+            .iter()
+            .map(|c| c.buffer.iter().map(|e| (e.val, e.mask)).collect())
+            .collect()
+    }
+}
